@@ -6,7 +6,10 @@ for every case
      with what the implementation did                                      → MISMATCH,
   3. reports which structural branches of the model the case went through  → `br=`.
 Case kinds: `tw …` / `cw …` (one window receiver driven through the hook, observation per message) and
-`task tw …` / `task cw …` (a real task with interleaved groups, observation = all batches per group).
+`task tw …` / `task cw …` (a real task with interleaved groups, observation = all batches per group; with
+`… barrier <idle> <delete>` the task has a real `barrier()` node above the window and the messages that entered
+the window — points, barriers, group deletions — are observed at a stream sink between the two nodes), and
+`def <name>` (is a task definition with this window accepted?).
 -/
 import Kap.Spec.C03
 open Kap Kap.C03
@@ -271,20 +274,19 @@ def judgeCount (period every : Nat) (fill : Bool) (ls : List TLine) : Verdict :=
 
 /-! ### real tasks with interleaved groups -/
 
-/-- Align the batches a group's sink received with the group's messages: the property decides, from the
-trace so far, whether a message must emit. Returns the trace or the violated schedule clause. -/
-def alignTime (c : TCfg) (t0 : Int) : List Msg → List Batch → Trace → Except String Trace
-  | [], [], tr => .ok tr
-  | [], b :: _, tr => .error s!"schedule-extra-emit {tr.length} batch {renderBatch b} has no triggering message"
+/-- Align the batches a group's sink received with the messages of ONE incarnation of the group's window: the
+property decides, from the trace so far, whether a message must emit. Returns the trace and the batches left
+for later incarnations, or the violated schedule clause. -/
+def alignTime (c : TCfg) (t0 : Int) : List Msg → List Batch → Trace → Except String (Trace × List Batch)
+  | [], bs, tr => .ok (tr, bs)
   | m :: ms, bs, tr =>
     if m.t < due c t0 tr then alignTime c t0 ms bs (tr ++ [(m, none)])
     else match bs with
       | [] => .error s!"schedule-missed-emit {tr.length} message at {m.t} reached due time {due c t0 tr} but no batch was emitted"
       | b :: bs' => alignTime c t0 ms bs' (tr ++ [(m, some b)])
 
-def alignCount (period every : Nat) (fill : Bool) : List Pt → List Batch → List Pt → List (Pt × Option Batch) → Except String (List (Pt × Option Batch))
-  | [], [], _, tr => .ok tr
-  | [], b :: _, _, tr => .error s!"count-early-emit {tr.length} batch {renderBatch b} has no triggering point"
+def alignCount (period every : Nat) (fill : Bool) : List Pt → List Batch → List Pt → List (Pt × Option Batch) → Except String (List (Pt × Option Batch) × List Batch)
+  | [], bs, _, tr => .ok (tr, bs)
   | p :: ps, bs, pre, tr =>
     if countDue period every fill (pre.length + 1) then
       match bs with
@@ -296,11 +298,39 @@ inductive Win where
   | time (c : TCfg)
   | count (period every : Nat) (fill : Bool)
 
-def judgeTask (win : Win) (lines : List String) : Verdict := Id.run do
+/-- what entered the window node for one group: messages and group deletions -/
+inductive InMsg where
+  | msg (m : Msg)
+  | del
+
+/-- split at deletions: each part is the history of one incarnation of the group's window -/
+def incarnations (l : List InMsg) : List (List Msg) :=
+  let rec go : List InMsg → List Msg → List (List Msg) → List (List Msg)
+    | [], cur, acc => (cur.reverse :: acc).reverse
+    | .msg m :: r, cur, acc => go r (m :: cur) acc
+    | .del :: r, cur, acc => go r [] (cur.reverse :: acc)
+  (go l [] []).filter (fun x => !x.isEmpty)
+
+def parseIn (sent : List (Nat × Int)) (toks : List String) : Option (List InMsg) :=
+  if toks == ["none"] then some [] else
+  toks.mapM (fun tok =>
+    if tok == "d" then some InMsg.del else
+    match tok.splitOn ":" with
+    | ["p", id] => do
+      let id ← id.toNat?
+      let t ← lookupT sent id
+      pure (InMsg.msg (.point ⟨t, id⟩))
+    | ["b", t] => do
+      let t ← t.toInt?
+      pure (InMsg.msg (.barrier t))
+    | _ => none)
+
+def judgeTask (win : Win) (viaBarrier : Bool) (lines : List String) : Verdict := Id.run do
   -- parse
   let mut sent : List (Nat × Int) := []
   let mut byGroup : List (String × List Pt) := []
   let mut finals : List (String × List String) := []
+  let mut ins : List (String × List String) := []
   for l in lines do
     let (opT, obsT) := splitObs (tokens l)
     match opT with
@@ -314,53 +344,121 @@ def judgeTask (win : Win) (lines : List String) : Verdict := Id.run do
     | ["final", g] =>
       let some g := unesc g | return .badop l
       finals := finals ++ [(g, obsT)]
+    | ["in", g] =>
+      let some g := unesc g | return .badop l
+      ins := ins ++ [(g, obsT)]
+    | ["idle"] => pure ()
     | _ => return .badop l
   let mut st : St := {}
   st := st.add "task"
   if byGroup.length ≥ 2 then st := st.add "task:interleaved-groups"
+  if byGroup.length ≥ 6 then st := st.add "task:many-groups"
   let mut nt := false
   for (g, obsT) in finals do
     let pts := (byGroup.find? (·.1 == g)).map (·.2) |>.getD []
     let obsBatches : Option (List Batch) :=
       if obsT == ["none"] then some [] else obsT.mapM (parseBatch sent)
+    -- the histories of the group's window incarnations: from the sink directly above the window when the task
+    -- has a barrier node (barriers and group deletions are produced by the real node), else the points written
+    let mut incs : List (List Msg) := [pts.map Msg.point]
+    if viaBarrier then
+      st := st.add "task:barrier-node"
+      let some inT := (ins.find? (·.1 == g)).map (·.2) | return .badop s!"no `in` line for group {esc g}"
+      let some inMsgs := parseIn sent inT | return .specfail "no-panic" s!"group {esc g}: sink above the window answered {inT}"
+      -- sanity: the window only saw points that were written for this group
+      for im in inMsgs do
+        match im with
+        | .msg (.point p) => if !pts.contains p then return .mismatch s!"group {esc g}: point {p.id} reached the window but was not written for the group"
+        | .msg (.barrier _) => st := st.add "task:barrier-msg"
+        | .del => st := st.add "task:delete-group"
+      incs := incarnations inMsgs
+      if incs.length ≥ 2 then st := st.add "task:group-recreated"
+      if incs.any (fun i => match i.head? with | some (.barrier _) => true | _ => false) then
+        st := st.add "task:window-created-by-barrier"
+    incs := incs.filter (fun i => !i.isEmpty)
     match win with
     | .time c =>
-      let msgs := pts.map Msg.point
-      let hyp := hypTime c msgs
       st := st.addAll (cfgTags c)
+      let hyp := incs.all (fun msgs => hypTime c msgs)
+      if !hyp then st := st.add "hyp:out-of-order"
       -- 1. property on observed
       if hyp then
         let some bs := obsBatches | return .specfail "no-panic" s!"group {esc g}: implementation answered {obsT}"
-        match msgs with
-        | [] => if !bs.isEmpty then return .specfail "schedule-extra-emit" s!"group {esc g} received nothing but emitted"
-        | m0 :: _ =>
-          match alignTime c m0.t msgs bs [] with
-          | .error e => return .specfail ((e.splitOn " ").headD "schedule") s!"group {esc g}: {e}"
-          | .ok tr =>
-            match traceViolation c tr with
-            | some (k, cl) => return .specfail cl s!"group {esc g} step {k}: observed {renderOut ((tr.getD k (default, none)).2)}"
-            | none => pure ()
+        let mut rest := bs
+        let mut k := 0
+        for msgs in incs do
+          match msgs with
+          | [] => pure ()
+          | m0 :: _ =>
+            match alignTime c m0.t msgs rest [] with
+            | .error e => return .specfail ((e.splitOn " ").headD "schedule") s!"group {esc g} incarnation {k}: {e}"
+            | .ok (tr, rest') =>
+              rest := rest'
+              match traceViolation c tr with
+              | some (j, cl) => return .specfail cl s!"group {esc g} incarnation {k} step {j}: observed {renderOut ((tr.getD j (default, none)).2)}"
+              | none => pure ()
+          k := k + 1
+        match rest with
+        | b :: _ => return .specfail "schedule-extra-emit" s!"group {esc g}: batch {renderBatch b} has no triggering message"
+        | [] => pure ()
       -- 2. model
-      let mo := (runTime c msgs).filterMap id
+      let mo := incs.flatMap (fun msgs => (runTime c msgs).filterMap id)
       if mo.length ≥ 2 && mo.any (fun b => !b.pts.isEmpty) then nt := true
+      if incs.any (fun msgs => (msgs.zip (runTime c msgs)).any (fun x => match x with | (.barrier _, some _) => true | _ => false)) then
+        st := st.add "task:barrier-emits"
       if obsBatches != some mo then
         return .mismatch s!"group {esc g}: model emits {" ".intercalate (mo.map renderBatch)} observed {obsT}"
     | .count period every fill =>
       let hyp := period ≥ 1 && every ≥ 1
+      st := st.add "task:count"
+      let incPts := incs.map (fun msgs => received msgs)
       if hyp then
         let some bs := obsBatches | return .specfail "no-panic" s!"group {esc g}: implementation answered {obsT}"
-        match alignCount period every fill pts bs [] [] with
-        | .error e => return .specfail ((e.splitOn " ").headD "count") s!"group {esc g}: {e}"
-        | .ok tr =>
-          match countViolationFrom period every fill [] tr with
-          | some (k, cl) => return .specfail cl s!"group {esc g} after point {k + 1}: observed {renderOut ((tr.getD k (default, none)).2)}"
-          | none => pure ()
-      let mo := (runCount period every fill pts).filterMap id
+        let mut rest := bs
+        for ps in incPts do
+          match alignCount period every fill ps rest [] [] with
+          | .error e => return .specfail ((e.splitOn " ").headD "count") s!"group {esc g}: {e}"
+          | .ok (tr, rest') =>
+            rest := rest'
+            match countViolationFrom period every fill [] tr with
+            | some (k, cl) => return .specfail cl s!"group {esc g} after point {k + 1}: observed {renderOut ((tr.getD k (default, none)).2)}"
+            | none => pure ()
+        match rest with
+        | b :: _ => return .specfail "count-early-emit" s!"group {esc g}: batch {renderBatch b} has no triggering point"
+        | [] => pure ()
+      let mo := incPts.flatMap (fun ps => (runCount period every fill ps).filterMap id)
       if mo.length ≥ 1 && pts.length > period then nt := true
-      st := st.add "task:count"
       if obsBatches != some mo then
         return .mismatch s!"group {esc g}: model emits {" ".intercalate (mo.map renderBatch)} observed {obsT}"
   return .ok nt st.branches.reverse
+
+/-- `pipeline.WindowNode.validate` + `newWindowNode` + the edge types of the window node (wants a stream edge,
+provides a batch edge): which task definitions are accepted. -/
+def defAccepted (name : String) : Option Bool :=
+  match name with
+  | "stream-window" => some true
+  | "stream-window-count" => some true
+  | "batch-query-window" => some false        -- a window node cannot be attached to a batch edge
+  | "window-after-window" => some false       -- … nor to the batch edge another window provides
+  | "window-no-period" => some false          -- neither period nor periodCount
+  | "window-period-and-count" => some false
+  | "window-count-align" => some false
+  | "window-count-no-every" => some false     -- everyCount must be > 0
+  | "window-count-every-neg" => some false
+  | "window-every-only" => some false         -- every without period
+  | _ => none
+
+def judgeDef (h : String) : Verdict :=
+  let (opT, obsT) := splitObs (tokens h)
+  match opT with
+  | ["def", name] =>
+    match defAccepted name with
+    | none => .badop h
+    | some acc =>
+      let want := if acc then "accepted" else "rejected"
+      if obsT == [want] then .ok false [s!"def:{name}"]
+      else .mismatch s!"definition {name}: model says {want}, observed {obsT}"
+  | _ => .badop h
 
 def b01? (s : String) : Option Bool := if s == "1" then some true else if s == "0" then some false else none
 
@@ -379,12 +477,21 @@ def judge (_id : String) (lines : Array String) : Verdict :=
       | _, _, _, _ => .badop h
     | ["task", "tw", p, e, a, f] =>
       match p.toInt?, e.toInt?, b01? a, b01? f with
-      | some p, some e, some a, some f => judgeTask (.time ⟨p, e, a, f⟩) rest
+      | some p, some e, some a, some f => judgeTask (.time ⟨p, e, a, f⟩) false rest
+      | _, _, _, _ => .badop h
+    | ["task", "tw", p, e, a, f, "barrier", _, _] =>
+      match p.toInt?, e.toInt?, b01? a, b01? f with
+      | some p, some e, some a, some f => judgeTask (.time ⟨p, e, a, f⟩) true rest
       | _, _, _, _ => .badop h
     | ["task", "cw", p, e, f] =>
       match p.toNat?, e.toNat?, b01? f with
-      | some p, some e, some f => judgeTask (.count p e f) rest
+      | some p, some e, some f => judgeTask (.count p e f) false rest
       | _, _, _ => .badop h
+    | ["task", "cw", p, e, f, "barrier", _, _] =>
+      match p.toNat?, e.toNat?, b01? f with
+      | some p, some e, some f => judgeTask (.count p e f) true rest
+      | _, _, _ => .badop h
+    | "def" :: _ => judgeDef h
     | _ => .badop h
 
 end Kap.C03.Drv
